@@ -12,7 +12,7 @@ ASCII = 'inputs are ASCII (character classification of the model is exact on ASC
 DEPTH = 'substitutions nested deeper than 64 levels are outside the modelled domain'
 CORR = 'theorems are about the Lean model; they transfer to the implementation through the correspondence observed on the generated inputs'
 
-T1 = [('Bashlex.Props.C09_sound', 'Bashlex.Props.C09'), ('Bashlex.LR.real_check', 'Bashlex.LR.Real'),
+T1 = [('Bashlex.Props.C09_sound', 'Bashlex.Props.C09'), ('Bashlex.Props.C09_exact', 'Bashlex.Props.C09'), ('Bashlex.LR.real_AccOK', 'Bashlex.LR.Real'), ('Bashlex.LR.run_sound_exact', 'Bashlex.LR.Exact'), ('Bashlex.LR.real_check', 'Bashlex.LR.Real'),
       ('Bashlex.LR.real_WF', 'Bashlex.LR.Real'), ('Bashlex.LR.run_sound', 'Bashlex.LR.Sound'),
       ('Bashlex.LR.Raw.check_sound', 'Bashlex.LR.Check'),
       ('Bashlex.Props.termNames_agree', 'Bashlex.Props.C09'), ('Bashlex.Props.actions_covered', 'Bashlex.Props.C09')]
